@@ -196,7 +196,7 @@ class SymEx:
         c = op_const(op)
         if c is not None:
             if 'fn' in c:
-                return ('fnconst', c['fn'])
+                return ('fnconst', c['fn'], c.get('res'), tuple(c.get('args') or ()))
             if 'v' in c:
                 return ('const', c['v'], c['ty'])
             if isinstance(c.get('promoted'), int) and not isinstance(c.get('promoted'), bool) and self.F is not None and c.get('def'):
